@@ -1728,6 +1728,55 @@ theorem realloc_null_iff (cfg : Cfg) (ok : CfgOK cfg) (h : Heap) (p n sz : Nat) 
 example : ∃ r, realloc ⟨64, 200⟩ ⟨144, [], [(72, 64), (0, 64)]⟩ (some 80) 100 = some r ∧ r.ret = none := ⟨_, rfl, rfl⟩
 example : ∃ r, realloc ⟨64, 200⟩ ⟨144, [], [(72, 64), (0, 64)]⟩ (some 8) 100 = some r ∧ r.ret = none := ⟨_, rfl, rfl⟩
 
+/-- EXACT characterisation of the NULL answers of malloc WITH 64-bit sizes and addresses (what the
+driver runs, `mallocA`): NULL ⇔ the rounding of the request wraps, or no free chunk can hold the
+rounded request and the break cannot move: without a heap end because the new chunk would cross
+the top of the address space (`len > SIZE_MAX − 8 ∨ len + 8 > SIZE_MAX − (base + brk)`), with a
+heap end because `lim < brk + len + 8`. -/
+theorem mallocA_null_iff (base : Nat) (cfg : Cfg) (h : Heap) (n : Nat) :
+    (mallocA base cfg h n).ret = none ↔
+      (n % cfg.W ≠ 0 ∧ n > SIZE_MAX - (cfg.W - n % cfg.W)) ∨
+      ((∀ f ∈ h.flp, f.2 < minLen (roundLen cfg.W n)) ∧
+        (if cfg.lim = 0 then
+          minLen (roundLen cfg.W n) > SIZE_MAX - 8 ∨ minLen (roundLen cfg.W n) + 8 > SIZE_MAX - (base + h.brk)
+         else cfg.lim < h.brk + minLen (roundLen cfg.W n) + 8)) := by
+  have h3 := reachesStep3_iff cfg h n
+  have hm := malloc_null_iff cfg h n
+  unfold mallocA
+  split
+  · rename_i hw; exact ⟨fun _ => Or.inl hw, fun _ => rfl⟩
+  · rename_i hw
+    split
+    · rename_i href
+      refine ⟨fun _ => Or.inr ?_, fun _ => rfl⟩
+      unfold mallocRefusesA at href
+      simp only [Bool.and_eq_true, beq_iff_eq] at href
+      obtain ⟨⟨hl0, hst⟩, hbw⟩ := href
+      refine ⟨h3.1 hst, ?_⟩
+      rw [if_pos hl0]
+      unfold brkWraps at hbw
+      simpa using hbw
+    · rename_i href
+      rw [hm]
+      constructor
+      · rintro ⟨hl0, hall, hlt⟩
+        right
+        refine ⟨hall, ?_⟩
+        rw [if_neg hl0]; exact hlt
+      · rintro (hc | ⟨hall, hif⟩)
+        · exact absurd hc hw
+        · by_cases hl0 : cfg.lim = 0
+          · rw [if_pos hl0] at hif
+            exfalso; apply href
+            unfold mallocRefusesA brkWraps
+            simp only [Bool.and_eq_true, beq_iff_eq, Bool.or_eq_true, decide_eq_true_eq]
+            exact ⟨⟨hl0, h3.2 hall⟩, hif⟩
+          · rw [if_neg hl0] at hif
+            exact ⟨hl0, hall, hif⟩
+
+example : (mallocA (2 ^ 46) ⟨64, 0⟩ ⟨72, [], [(0, 64)]⟩ (2 ^ 64 - 64)).ret = none := by decide
+
+
 /-- WHAT THE DRIVER PRINTS after a successful `realloc` of a block that the harness had filled
 with the pattern `seed` over its `oldn ≤ sz` requested bytes: the digest of the first
 `min(oldn, n)` bytes of the RETURNED block, computed by executing the model's stores (`execJ`:
